@@ -245,6 +245,57 @@ def check_case(spec):
     return fails, classes, nontrivial, nsplits
 
 
+# ----------------------------------------------------------------------------- messages above 64 KiB
+def bulk_spec(side, framing, n, tail):
+    """A well-formed message whose body has n > 65536 octets (more than the line limit is buffered behind every head
+    line when it arrives whole), with hand-written ground truth."""
+    body = bytes((i * 7 + 3) % 251 for i in range(n))
+    if side == "request":
+        startline = b"POST /upload?x=1 HTTP/1.1"
+        start = {"method": "POST", "url": "/upload?x=1", "version": [1, 1], "form": "origin", "path": "/upload", "query": "x=1"}
+        headers = [["Host", "example.com"]]
+    else:
+        startline = b"HTTP/1.1 200 OK"
+        start = {"version": [1, 1], "status": 200, "reason": "OK"}
+        headers = [["Server", "demo"]]
+    trailers, parms = [], []
+    if framing == "length":
+        headers.append(["Content-Length", "%d" % n])
+        payload = body
+    else:
+        headers.append(["Transfer-Encoding", "chunked"])
+        payload = b""
+        pos = 0
+        for size in (1, 4096, 30000, 65536, n):
+            chunk = body[pos:pos + size]
+            pos += len(chunk)
+            if chunk:
+                payload += b"%x\r\n" % len(chunk) + chunk + b"\r\n"
+        payload += b"0\r\nX-Trail: t\r\n\r\n"
+        trailers = [["X-Trail", "t"]]
+    wire = startline + b"\r\n" + b"".join(("%s: %s\r\n" % (k, v)).encode("ascii") for k, v in headers) + b"\r\n" + payload
+    total = len(wire) + len(tail)
+    splits = [[7], [len(startline) + 1], [total - 1], [65536], [65537, 65540], list(range(4096, total, 4096))[:40], [1000, 2000, 70000]]
+    return {"side": side, "wire": wire, "leftover": tail, "framing": framing, "start": start, "headers": headers, "body": body,
+            "trailers": trailers, "parms": parms, "interim": 0, "reqmethod": "GET", "splits": splits, "bulk": True}
+
+
+def check_bulk(spec):
+    whole = drive(spec, [])
+    fails = [("bulk:" + s_, "message of %d bytes delivered whole: %s" % (len(spec["wire"]), w)) for s_, w in truth_failures(spec, whole)]
+    seen = set(s_ for s_, _ in fails)
+    for cuts in spec["splits"]:
+        obs = drive(spec, cuts)
+        if obs != whole:
+            diff = sorted(k for k in obs if obs[k] != whole.get(k))
+            sig = "bulk:split:" + (obs.get("exc") or diff[0])
+            if sig not in seen:
+                seen.add(sig)
+                fails.append((sig, "message of %d bytes: split at %r differs from the whole parse in %s (whole: errored=%r error=%r)"
+                              % (len(spec["wire"]), cuts[:4], diff[:4], whole.get("errored"), whole.get("error"))))
+    return fails
+
+
 # ----------------------------------------------------------------------------- reused parser object
 def check_reuse(case):
     """The parser object of a connection parses message `first`, is set up again and parses `second` under splits.
@@ -416,6 +467,7 @@ def plan(tier):
     for side in ("request", "response"):
         for i in range(n):
             shards.append({"part": "reuse", "side": side, "i": 800 + len(shards)})
+    shards.append({"part": "bulk", "i": 950})
     return shards
 
 
@@ -426,6 +478,19 @@ def work(shard, seed, tier):
     if shard.get("part") == "atheris":
         from vp.fuzz.fuzz_http import run_campaign
         run_campaign(acc, shard["target"], shard["seconds"], seed, max_len=16384)
+        return acc
+    if shard.get("part") == "bulk":
+        for side in ("request", "response"):
+            for framing in ("length", "chunked"):
+                for n in (65537, 70000, 140000):
+                    for tail in (b"", b"GET /next HTTP/1.1\r\n"):
+                        spec = bulk_spec(side, framing, n, tail)
+                        fails = check_bulk(spec)
+                        acc.case(key=("bulk", side, framing, n, tail), nontrivial=True, classes=["bulk>64KiB", "bulk:%s:%s" % (side, framing)],
+                                 sample=None)
+                        for sig, what in fails:
+                            acc.fail(sig, what, {"bulk": [side, framing, n, tail]})
+        acc.note("messages above 64 KiB: 2 sides x 2 framings x 3 sizes x 2 tails, whole and 7 splits each")
         return acc
     if shard.get("part") == "reuse":
         tot = {"splits": 0}
@@ -478,6 +543,9 @@ def work(shard, seed, tier):
 def replay(case):
     from vp.core import env
     env.quiet_ioflo()
+    if case.get("bulk"):
+        side, framing, n, tail = case["bulk"]
+        return check_bulk(bulk_spec(side, framing, n, bytes(tail)))
     if case.get("reuse"):
         return check_reuse(case)[0]
     fails, _, _, _ = check_keepalive(case) if case.get("keepalive") else check_case(case)
